@@ -33,6 +33,10 @@ structure Typ (cfg : Cfg) (s : St) : Prop where
   started : s.evAdded = (s.pc cfg.lt != .runStart)
   idle    : idlePc (s.pc cfg.lt) = true → s.plan = []
   exitrole : ∀ t, t ≠ cfg.lt → isExitPc (s.pc t) = true → cfg.role t = .exit
+  /-- once `run` has recorded its thread id nobody changes it, so the loop thread's own exit call
+  takes the `tid == self` branch -/
+  tidl    : s.evAdded = true → s.tid = cfg.lt
+  noSetW  : s.pc cfg.lt ≠ .eSetW
 
 theorem initPc_nonloop {r : Role} (h : ∀ k, r ≠ .loop k) : isLoopPc (initPc r) = false := by
   cases r with
@@ -45,7 +49,7 @@ theorem initPc_nonloop {r : Role} (h : ∀ k, r ≠ .loop k) : isLoopPc (initPc 
 theorem typ_init (cfg : Cfg) (hwf : WF cfg) (hl : ∃ k, cfg.role cfg.lt = .loop k) (hn : cfg.lt < cfg.n) :
     Typ cfg (mkInit cfg) := by
   obtain ⟨k, hk⟩ := hl
-  refine ⟨?_, ?_, ?_, Or.inl rfl, ?_, ?_, ?_, ?_⟩
+  refine ⟨?_, ?_, ?_, Or.inl rfl, ?_, ?_, ?_, ?_, ?_, ?_⟩
   · intro t ht
     simp only [mkInit]
     split
@@ -71,7 +75,8 @@ theorem typ_init (cfg : Cfg) (hwf : WF cfg) (hl : ∃ k, cfg.role cfg.lt = .loop
       | hand p => cases p <;> simp [initPc, isExitPc]
       | io k => simp only [initPc]; split <;> simp [isExitPc]
     · simp [isExitPc]
-
+  · intro h; simp [mkInit] at h
+  · simp [mkInit, hn, hk, initPc]
 
 theorem advPc_cases (pl : List Src) : advPc pl = .clearup ∨ advPc pl = .chkExit := by
   induction pl with
